@@ -1,5 +1,5 @@
 (* C03 (b) -- whole evaluations over cached domains do not depend on the history (rule-free queries, any domains);
-   refuted for rule queries (selector memory). *)
+   rule queries included since a3cd335 (selector memory forgotten at the start of an evaluation). *)
 From Coq Require Import List ZArith Bool Arith Lia.
 From Krrood Require Import Eql.DomainCacheSpec Eql.DomainCache Eql.DomainCacheProofs Eql.ReevalSpec Eql.Reeval.
 Import ListNotations.
@@ -43,19 +43,18 @@ Qed.
 Section Good.
   Variable W : world.
   Variable A : attrs.
-  Variable c0 : list (list Z).
-
-  Definition good (s : qstate) : Prop := Forall2 dgood (doms s) W /\ concl s = c0.
+  (* the caches stand for the world W; the selector memory may hold anything (it is forgotten when an evaluation starts) *)
+  Definition good (s : qstate) : Prop := Forall2 dgood (doms s) W.
 
   Lemma enum_good s x : good s -> fst (enum s x) = domW W x /\ good (snd (enum s x)).
   Proof.
-    intros [G C]. unfold enum, domW. destruct (nth_error (doms s) x) as [d|] eqn:E.
+    intros G. unfold good in *. unfold enum, domW. destruct (nth_error (doms s) x) as [d|] eqn:E.
     - destruct (Forall2_nth_some _ _ _ _ _ G E) as (w & Ew & Hd).
       destruct (iter_full_good d w Hd) as [F1 F2].
       destruct (iter_full d) as [vs d'] eqn:Ei. simpl in *. subst vs. split.
       + symmetry. apply nth_error_nth. auto.
-      + split; simpl; auto. eapply Forall2_upd; eauto.
-    - pose proof (Forall2_nth_none _ _ _ _ G E) as En. simpl. split; [|split; auto].
+      + simpl. eapply Forall2_upd; eauto.
+    - pose proof (Forall2_nth_none _ _ _ _ G E) as En. simpl. split; auto.
       apply nth_error_None in En. rewrite nth_overflow; auto.
   Qed.
 
@@ -101,52 +100,54 @@ Section Good.
     apply (loop_good (fun b' s' => eval_conds A cs b' s') (eval_condsW W A cs)); auto.
   Qed.
 
-  Theorem run_isolated q s : q_rule q = None -> good s ->
+  (* rule-free AND rule queries: the selector memory is forgotten at the start, so the rows are the isolated ones *)
+  Theorem run_isolated q s : good s ->
     fst (run A s q) = iso_rows W A q /\ good (snd (run A s q)).
   Proof.
-    intros Hr G. unfold run, iso_rows. rewrite Hr.
+    intros G. unfold run, iso_rows.
     destruct (eval_conds_good (q_conds q) [] s G) as [E1 E2].
     destruct (eval_conds A (q_conds q) [] s) as [bs s1]. simpl in *. subst bs.
-    apply (loop_good (fun b s => bind_all (q_sel q) b s (fun b' s' => ([row (q_sel q) b'], s')))
-                     (fun b => bind_allW W (q_sel q) b (fun b' => [row (q_sel q) b']))); auto.
-    intros b s0 G0.
-    apply (bind_all_good (fun b' s' => ([row (q_sel q) b'], s')) (fun b' => [row (q_sel q) b'])); auto.
-    intros b' s' G'. simpl. auto.
+    destruct (q_rule q) as [exc|].
+    - destruct (conclude A exc (q_sel q) (eval_condsW W A (q_conds q) []) []) as [rows seen]. simpl. split; auto.
+    - apply (loop_good (fun b s => bind_all (q_sel q) b s (fun b' s' => ([row (q_sel q) b'], s')))
+                       (fun b => bind_allW W (q_sel q) b (fun b' => [row (q_sel q) b']))); auto.
+      intros b s0 G0.
+      apply (bind_all_good (fun b' s' => ([row (q_sel q) b'], s')) (fun b' => [row (q_sel q) b'])); auto.
+      intros b' s' G'. simpl. auto.
   Qed.
 
-  Theorem hist_isolated qs : forall s, Forall (fun q => q_rule q = None) qs -> good s ->
-    hist A s qs = map (iso_rows W A) qs.
+  Theorem hist_isolated qs : forall s, good s -> hist A s qs = map (iso_rows W A) qs.
   Proof.
-    induction qs as [|q qs IH]; intros s Hq G; simpl; auto.
-    inversion Hq as [|? ? Hq1 Hq2]; subst.
-    destruct (run_isolated q s Hq1 G) as [E1 E2]. destruct (run A s q) as [rows s']. simpl in *.
+    induction qs as [|q qs IH]; intros s G; simpl; auto.
+    destruct (run_isolated q s G) as [E1 E2]. destruct (run A s q) as [rows s']. simpl in *.
     subst rows. f_equal. apply IH; auto.
   Qed.
 End Good.
 
 (* the world a state stands for: every domain de-duplicated (first occurrences) *)
-Lemma good_cold W : good (map dedup W) [] (cold W).
+Lemma good_cold W : good (map dedup W) (cold W).
 Proof.
-  split; auto. unfold cold; simpl. induction W; simpl; constructor; auto. reflexivity.
+  unfold good, cold; simpl. induction W; simpl; constructor; auto. reflexivity.
 Qed.
 
-Theorem reeval_idempotent W A c0 q s : q_rule q = None -> good W c0 s ->
+Theorem reeval_idempotent W A q s : good W s ->
   fst (run A (snd (run A s q)) q) = fst (run A s q).
 Proof.
-  intros Hr G. destruct (run_isolated W A c0 q s Hr G) as [E1 E2].
-  destruct (run_isolated W A c0 q _ Hr E2) as [E3 _]. congruence.
+  intros G. destruct (run_isolated W A q s G) as [E1 E2].
+  destruct (run_isolated W A q _ E2) as [E3 _]. congruence.
 Qed.
 
-(* ---- refutations ---- *)
-(* rule query with a refinement: the selector remembers every binding it concluded for; the second evaluation is empty *)
+(* ---- regression: the code before a3cd335 ---- *)
+(* rule query with a refinement: the selector remembered every binding it concluded for; the second evaluation was empty *)
 Definition q_rule_w : query := {| q_sel := [0%nat]; q_conds := [ACmpC 0 Cge 1]; q_rule := Some [ACmpC 0 Cge 2] |}.
 Definition W_w : world := [[10; 11; 12; 13]].
 Definition A_w : attrs := [(10, 0); (11, 1); (12, 2); (13, 3)].
 
-Lemma refuted_rule_reeval :
-  hist A_w (cold W_w) [q_rule_w; q_rule_w] = [[[0; 11]; [1; 12]; [1; 13]]; []] /\
-  iso_rows W_w A_w q_rule_w = [[0; 11]; [1; 12]; [1; 13]].
-Proof. split; vm_compute; reflexivity. Qed.
+Lemma refuted_rule_reeval_old :
+  hist_old A_w (cold W_w) [q_rule_w; q_rule_w] = [[[0; 11]; [1; 12]; [1; 13]]; []] /\
+  iso_rows W_w A_w q_rule_w = [[0; 11]; [1; 12]; [1; 13]] /\
+  hist A_w (cold W_w) [q_rule_w; q_rule_w] = [[[0; 11]; [1; 12]; [1; 13]]; [[0; 11]; [1; 12]; [1; 13]]].
+Proof. repeat split; vm_compute; reflexivity. Qed.
 
 (* duplicate domain element: once, on every evaluation (it was twice on the first one with the previous iterator) *)
 Definition q_plain_w : query := {| q_sel := [0%nat]; q_conds := [ACmpC 0 Cge 0]; q_rule := None |}.
@@ -159,7 +160,7 @@ Example reeval_nonvacuous :
   let q := {| q_sel := [0%nat; 1%nat]; q_conds := [ACmpC 0 Cge 1; ACmpV 0 Clt 1]; q_rule := None |} in
   let W := [[10; 11; 12]; [20; 21]] in
   let A := [(10, 0); (11, 1); (12, 2); (20, 2); (21, 3)] in
-  good (map dedup W) [] (cold W) /\
+  good (map dedup W) (cold W) /\
   hist A (cold W) [q; q] = [[[11; 20]; [11; 21]; [12; 21]]; [[11; 20]; [11; 21]; [12; 21]]].
 Proof.
   simpl. split; [apply (good_cold [[10; 11; 12]; [20; 21]])|vm_compute; reflexivity].
